@@ -230,6 +230,7 @@ func genC05(seed uint64, tier, outdir string) *Report {
 	}
 	mons := []L1Monitor{timelineMonitor("C05"), logMonitor("C05")}
 	var texts []string
+	tt := newTermTable()
 	for k := 0; k < nT; k++ {
 		period := c05Periods[k%len(c05Periods)]
 		c := RunL1Twice(seed*100000+50000+uint64(k), k+1, c05Timeline(period), rep)
@@ -260,11 +261,11 @@ func genC05(seed uint64, tier, outdir string) *Report {
 			}
 			rep.Sample(map[string]interface{}{"kind": "time line, period 1 s (first ops)", "ops": l1OpsHuman(c.Ops[:m])})
 		}
-		texts = append(texts, c.Coq())
+		texts = append(texts, l1CaseText(c, tt))
 	}
 	w := DefaultL1Weights
 	w.Propose, w.Claim, w.Delete, w.AdvanceChance = 20, 30, 8, 55
-	texts = append(texts, runRandomL1(rep, seed+4242, nT+1, nR, length, w, twoBridgeSetup(sec, 2*sec+500000000), mons, []string{"propose", "finalize"})...)
-	writeShards(outdir, "C05", l1CaseHeader, "run_l1case", "l1case", texts, 16, rep)
+	texts = append(texts, runRandomL1(rep, tt, seed+4242, nT+1, nR, length, w, twoBridgeSetup(sec, 2*sec+500000000), mons, []string{"propose", "finalize"})...)
+	writeShardsTerms(outdir, "C05", l1CaseHeader, "run_l1case", "l1case", texts, 16, rep, tt)
 	return rep
 }
